@@ -172,6 +172,15 @@ class Ctx:
                     return cl
                 # field of a struct parameter: symbolic
                 return lin_var(("len", "%s.%s" % (self.name(src["l"]), proj[0]["n"])))
+            # `slice.get(range)` / `get_mut(range)`: the Some payload is exactly that range of the slice
+            if len(proj) == 2 and isinstance(proj[0], dict) and proj[0].get("variant") == "Some" and isinstance(proj[1], dict) and proj[1].get("f") == 0:
+                base_l = strip_reborrow(fn, src["l"])[-1]
+                dd = def_sites(fn, base_l)
+                if len(dd) == 1 and dd[0][1] == "call" and dd[0][2].path in ("core::slice::<impl [T]>::get", "core::slice::<impl [T]>::get_mut") and len(dd[0][2].args) == 2:
+                    gc = dd[0][2]
+                    rl = self.range_len(self.len_of_operand(gc.args[0], depth + 1), expr_of_operand(fn, gc.args[1]))
+                    if rl is not None:
+                        return rl
             return lin_var(("len", deep_repr(expr_of_local(fn, l))))
         c = payload
         p = c.path
@@ -324,6 +333,15 @@ class Ctx:
             if cl is not None and proj[0]["n"] == "0":
                 return cl
             return lin_var(("len", "%s.%s" % (self.name(o["l"]), proj[0]["n"])))
+        if len(proj) == 2 and isinstance(proj[0], dict) and proj[0].get("variant") == "Some" and isinstance(proj[1], dict) and proj[1].get("f") == 0:
+            # `slice.get(range)` / `get_mut(range)`: the Some payload is exactly that range of the slice
+            base_l = strip_reborrow(self.fn, o["l"])[-1]
+            dd = def_sites(self.fn, base_l)
+            if len(dd) == 1 and dd[0][1] == "call" and dd[0][2].path in ("core::slice::<impl [T]>::get", "core::slice::<impl [T]>::get_mut") and len(dd[0][2].args) == 2:
+                gc = dd[0][2]
+                rl = self.range_len(self.len_of_operand(gc.args[0], depth + 1), expr_of_operand(self.fn, gc.args[1]))
+                if rl is not None:
+                    return rl
         return lin_var(("len", deep_repr(expr_of_operand(self.fn, o))))
 
     def range_len(self, base, rng):
